@@ -674,6 +674,8 @@ class Interp:
         if k is not None:
             return [k]
         v = self.ev(exc, env, cfg)
+        if v is None and isinstance(exc, ast.Call) and isinstance(exc.func, ast.Attribute) and exc.func.attr == "with_traceback":
+            v = self.ev(exc.func.value, env, cfg)  # e.with_traceback(tb) is e
         if v is not None and v[0] == "x":
             return [v[1]]
         if v is not None and v[0] == "i" and v[1] is not None:
